@@ -284,6 +284,13 @@ struct V : ipr::Visitor {
       o.node("master", [&]() -> const Node& { return d.master(); });
       o.node("linkage", [&]() -> const Node& { return d.linkage().language().what(); });
       o.node_seq("decl_set", [&]() -> const Sequence<Decl>& { return d.decl_set(); });
+      // a set lists each declaration once (by observation: holds whatever the model knows about the scope)
+      if (not o.rd.seqs.empty() and std::strcmp(o.rd.seqs.back().key, "decl_set") == 0 and not o.rd.seqs.back().refused) {
+         const auto& el = o.rd.seqs.back().elems;
+         for (size_t i = 0; i < el.size(); ++i)
+            for (size_t j = i + 1; j < el.size(); ++j)
+               if (el[i] == el[j]) { o.problem("decl_set() lists one declaration twice (positions " + std::to_string(i) + " and " + std::to_string(j) + ")"); i = el.size(); break; }
+      }
    }
 
    // ---- abstract fall-backs -------------------------------------------------------
